@@ -80,16 +80,21 @@ fn id_of_path(
         }
     }
 
-    // Build the id of the file.
-    id_builder.push(path.file_stem()?.to_str()?)?;
-    let id = id_builder.join();
-
-    // The file system cannot tell what a deleted entry was
+    // Build the id of the entry: only the name of a file has an extension,
+    // the whole name of a directory is the last segment of its id.
+    // The file system cannot tell what a deleted entry was.
     let entry = if is_dir.unwrap_or_else(|| path.is_dir()) {
-        OwnedDirEntry::Directory(id)
+        id_builder.push(path.file_name()?.to_str()?)?;
+        OwnedDirEntry::Directory(id_builder.join())
     } else {
-        let ext = crate::utils::extension_of(path)?.into();
-        OwnedDirEntry::File(id, ext)
+        id_builder.push(path.file_stem()?.to_str()?)?;
+        let ext = match path.extension() {
+            // `name.` is not the path of the file `name` without extension
+            Some(ext) if ext.is_empty() => return None,
+            Some(ext) => ext.to_str()?,
+            None => "",
+        };
+        OwnedDirEntry::File(id_builder.join(), ext.into())
     };
 
     Some(entry)
